@@ -48,8 +48,10 @@ MODELS = ["gnb", "kmeans", "scaler", "linreg", "pca", "forest", "tree"]
 # forced-output schedule
 # ----------------------------------------------------------------------------------------------------------------------
 
-def make_schedule(seed, period=None):
+def make_schedule(seed, period=None, kind=None):
     """(call, index) -> value; depends only on the call's class/parameters (which must not depend on the data) and index.
+    kind = "lower" / "upper": every mechanism returns the lower / upper end of its output domain (all-zero histogram
+    counts, noisy class counts of 1, sums at the domain boundary, first / last candidate …).
     With `period` the real-valued outputs repeat every `period` calls up to a small jitter (slowly drifting noisy
     centres: assignments of well separated data stay put while borderline records flip)"""
     def force(c, idx):
@@ -62,14 +64,22 @@ def make_schedule(seed, period=None):
             a = 0 if lo is None or not math.isfinite(lo) else int(math.ceil(lo))
             b = a + 40 if hi is None or not math.isfinite(hi) else int(math.floor(hi))
             b = max(a, min(b, a + 60))
+            if kind is not None:
+                return a if kind == "lower" else b
             return a + r.next() % (b - a + 1)
         if cls in ("PermuteAndFlip", "Exponential", "ExponentialCategorical"):
             k = len(c.params.get("utility", [0]))
+            if kind is not None:
+                return 0 if kind == "lower" else max(k, 1) - 1
             return int(r.next() % max(k, 1))
         if cls == "Bingham":
             d = c.value.shape[0]
             if d == 1:
                 return np.ones((1, 1))
+            if kind is not None:
+                v = np.zeros(d)
+                v[0 if kind == "lower" else d - 1] = 1.0
+                return v
             v = np.array([r.normal() for _ in range(d)])
             return v / np.linalg.norm(v)
         sens = float(getattr(o, "sensitivity", 1.0))
@@ -77,6 +87,11 @@ def make_schedule(seed, period=None):
         u = r.u01()
         if period is not None:
             u = (u + jit) / 1.04
+        if kind is not None:
+            e = lo if kind == "lower" else hi
+            if e is not None and math.isfinite(e):
+                return float(e)
+            return 0.0 if kind == "lower" else float(10 * (sens + 1))
         if lo is not None and hi is not None and math.isfinite(lo) and math.isfinite(hi):
             m = r.u01() if period is None else 0.5
             if m < 0.1:
@@ -110,8 +125,29 @@ def first_diff(a, b):
 # tools
 # ----------------------------------------------------------------------------------------------------------------------
 
+DATA_KINDS = ["in", "mixed", "corner", "in", "mixed", "corner", "allout", "allout", "allequal", "allnan"]
+
+
+def tool_values(r, lo, hi, size, kind):
+    """`size` values relative to the domain [lo, hi]; the extreme kinds: every value outside the domain (below, above or
+    both sides), every value equal, every value NaN"""
+    w = hi - lo
+    if kind == "allout":
+        side = r.choice(["below", "above", "both"])
+        return [(lo - r.loguniform(1e-3, 3) * w) if (side == "below" or (side == "both" and r.chance(0.5)))
+                else (hi + r.loguniform(1e-3, 3) * w) for _ in range(size)]
+    if kind == "allequal":
+        v = r.choice([lo, hi, r.uniform(lo, hi), 0.0])
+        return [v] * size
+    if kind == "allnan":
+        return [float("nan")] * size
+    return [c08.gen_value(r, lo, hi, kind) for _ in range(size)]
+
+
 def gen_tool_case(r, ctx, tool):
     case = {"entry": tool, "seed": r.randint(0, 2 ** 31 - 2), "sched": r.randint(0, 10 ** 9)}
+    if r.chance(0.25):
+        case["sched_kind"] = r.choice(["lower", "lower", "upper"])
     p = {"epsilon": c08.gen_eps(r)}
     big = ctx.tier == "thorough" and r.chance(0.2)
     if tool in ("histogram", "histogram2d", "histogramdd"):
@@ -134,7 +170,12 @@ def gen_tool_case(r, ctx, tool):
         p["bins"], p["range"], p["density"] = bins, rng_, r.chance(0.5)
         lo, hi = [a for a, _ in rng_], [b for _, b in rng_]
         case["shape"] = [n, d]
-        case["D"] = [c08.gen_rows(r, n, lo, hi, r.choice(["in", "mixed", "corner"])) for _ in range(2)]
+        Ds = []
+        for _ in range(2):
+            kind = r.choice([k_ for k_ in DATA_KINDS if k_ != "allnan"])
+            cols = [tool_values(r, lo[j], hi[j], n, kind) for j in range(d)]
+            Ds.append([[cols[j][i] for j in range(d)] for i in range(n)])
+        case["D"] = Ds
     else:
         nd = r.choice([1, 2, 2, 3])
         shape = [r.randint(61, 200) if big else r.randint(1, 40)] + [r.randint(1, 5) for _ in range(nd - 1)]
@@ -157,16 +198,14 @@ def gen_tool_case(r, ctx, tool):
         size = int(np.prod(shape))
         Ds = []
         for _ in range(2):
-            mode = r.choice(["in", "mixed", "corner"])
-            vals = [c08.gen_value(r, lo, hi, mode) for _ in range(size)]
-            if tool == "count_nonzero":
+            mode = r.choice([k_ for k_ in DATA_KINDS if k_ != "allnan" or (tool.startswith("nan") and not p["dtype_int"])])
+            vals = tool_values(r, lo, hi, size, mode)
+            if tool == "count_nonzero" and mode != "allequal":
                 vals = [0.0 if r.chance(0.5) else v for v in vals]
             if p["dtype_int"]:
                 vals = [float(round(v)) for v in vals]
-            if tool.startswith("nan"):
+            if tool.startswith("nan") and mode not in ("allnan", "allequal"):
                 vals = [float("nan") if r.chance(0.2) else v for v in vals]
-                if all(v != v for v in vals):
-                    vals[0] = lo
             Ds.append(vals)
         case["D"] = Ds
     case["params"] = p
@@ -269,6 +308,87 @@ def gen_model_case(r, ctx, model):
     return case
 
 
+def pca_dispatch_cases(r, ctx):
+    """shapes / n_components that exercise sklearn's solver negotiation (svd_solver 'auto' would resolve to
+    'randomized' or 'arpack' and bypass the private `_fit_full` for some of them), dense and sparse"""
+    combos = [(600, 100, 5, False), (120, 520, 1, False), (600, 100, None, False), (510, 60, "mle", False),
+              (30, 6, 2, True), (600, 100, 5, True)]
+    if ctx.tier == "thorough" or ctx.searching:
+        combos += [(120, 520, 5, False), (600, 100, 0.5, False), (501, 51, 40, False), (60, 700, 3, False),
+                   (1001, 20, 3, False), (520, 520, 1, False), (130, 510, 2, True)]
+    out = []
+    for n, d, nc, sparse in combos:
+        lo, hi = [-1.0] * d, [1.0] * d
+        centered = r.chance(0.5)
+        case = {"model": "pca", "entry": "pca", "seed": r.randint(0, 2 ** 31 - 2), "mode": "dispatch",
+                "sched": r.randint(0, 10 ** 9), "D2kind": "fresh",
+                "params": {"epsilon": c08.gen_eps(r), "lo": lo, "hi": hi, "scalar_bounds": True, "centered": centered,
+                           "n_components": nc, "data_norm": 0.3 * math.sqrt(d)},
+                "X": c08.gen_rows(r, n, lo, hi, "mixed"), "X2": c08.gen_rows(r, n, lo, hi, "in"), "y2": None}
+        if sparse:
+            case["sparse"] = True
+            for X in (case["X"], case["X2"]):
+                for row in X:
+                    for j in range(d):
+                        if r.chance(0.7):
+                            row[j] = 0.0
+        out.append(case)
+    return out
+
+
+def kmeans_iters(case):
+    """`_calc_iters` (None when eps/eps_m sits within rounding of an integer)"""
+    p = case["params"]
+    n, d = len(case["X"]), len(case["X"][0])
+    em = np.sqrt(500 * (p["k"] ** 3) / (n ** 2) * (d + np.cbrt(4 * d * (0.225 ** 2))) ** 3)
+    v = p["epsilon"] / em
+    if 2 - 1e-9 < v < 7 + 1e-9 and abs(v - round(v)) < 1e-9 * max(1.0, v):
+        return None
+    return int(max(min(v, 7), 2))
+
+
+def expected_calls(case, which, occ):
+    """the number of mechanism invocations the entry point must make, from caller parameters, shape and (for the three
+    estimators with data-dependent structure) the occupancy pattern; None = no expectation"""
+    p, entry = case["params"], case["entry"]
+    if entry in ("histogram", "histogram2d", "histogramdd"):
+        out = 1
+        for b in p["bins"]:
+            out *= (len(b) - 1) if isinstance(b, list) else int(b)
+        return out
+    if entry in TOOLS:
+        if p["axis"] is None and not p["keepdims"]:
+            return 1
+        return int(np.zeros(case["shape"]).sum(axis=p["axis"], keepdims=p["keepdims"]).size)
+    X = case["X"] if which == 0 else case["X2"]
+    y = case.get("y") if which == 0 else case.get("y2")
+    n, d = len(X), len(X[0])
+    if entry == "scaler":
+        per = 0 if not (p["with_mean"] or p["with_std"]) else d * (2 if p["with_std"] else 1)
+        return per * (2 if case.get("partial") else 1)
+    if entry == "linreg":
+        t = p["t"]
+        return (d + (1 if p["y1d"] else t) if p["fit_intercept"] else 0) + t + t * d + d * (d + 1) // 2
+    if entry == "pca":
+        nc = p["n_components"]
+        k = min(nc, d) if isinstance(nc, int) else (min(n, d) if nc is None else d)
+        return (0 if p["centered"] else d) + d + min(k, d - 1)
+    if entry == "gnb":
+        if case.get("partial"):
+            return sum(len(o) for o in occ) * (1 + 2 * d)
+        return len(set(y)) * (1 + 2 * d)
+    if entry == "kmeans":
+        it = kmeans_iters(case)
+        if it is None or len(occ) != it + 1:
+            return None if it is None else -1          # -1: the number of iterations itself is off
+        return sum(len(o) for o in occ[:-1]) * (1 + d)
+    if entry == "tree":
+        return 2 ** p["max_depth"]
+    if entry == "forest":
+        return p["n_estimators"] * 2 ** p["max_depth"]
+    return None
+
+
 PROBE_POINTS = 7
 
 
@@ -313,6 +433,9 @@ def run_model(case, which, force):
         warnings.simplefilter("ignore")
         with c08.probing() as pr, seams.interpose(force=force) as calls:
             args = c08.fit_args(case, X, y)
+            if case.get("sparse"):
+                import scipy.sparse as sp
+                args = (sp.csr_matrix(args[0]),) + tuple(args[1:])
             if case.get("partial"):
                 h = len(X) // 2
                 if case["model"] == "gnb":
@@ -348,7 +471,7 @@ def inputs_of(calls):
 def check_pair(ctx, case):
     """returns 'ok' | 'skipped' | 'violation'"""
     entry = case["entry"]
-    force = make_schedule(case["sched"], case.get("period"))
+    force = make_schedule(case["sched"], case.get("period"), case.get("sched_kind"))
     is_model = entry in MODELS
     try:
         if is_model:
@@ -358,12 +481,28 @@ def check_pair(ctx, case):
             rel1, calls1 = run_tool(case, 0, force)
             rel2, calls2 = run_tool(case, 1, force)
             occ1 = occ2 = None
-    except (ValueError, FloatingPointError, np.linalg.LinAlgError, ZeroDivisionError) as e:
+    except (ValueError, TypeError, FloatingPointError, np.linalg.LinAlgError, ZeroDivisionError) as e:
         ctx.count("refused_" + entry)
         ctx.count("refused")
         if ctx.counters["refused"] <= 5:
             ctx.note(f"{entry}: {type(e).__name__}: {str(e)[:120]}")
         return "skipped"
+    data = {"entry": entry, "case": case}
+    # a fit / query that reaches its release without the expected noise invocations computed it from the records
+    for which, calls, occ in ((0, calls1, occ1), (1, calls2, occ2)):
+        exp = expected_calls(case, which, occ)
+        if len(calls) == 0 and exp != 0:
+            ctx.violation(f"C06:{entry}:data-leak:no-mechanism-invoked",
+                          f"{entry}: dataset {which + 1} of shape {case.get('shape') or [len(case['X']), len(case['X'][0])]}"
+                          f" was released without a single mechanism invocation (expected {exp}); parameters "
+                          f"{ {k: v for k, v in case['params'].items() if k not in ('lo', 'hi')} }", dict(data, dataset=which + 1))
+            return "violation"
+        if exp is not None and len(calls) != exp:
+            ctx.violation(f"C06:{entry}:data-leak:unexpected-schedule",
+                          f"{entry}: dataset {which + 1} made {len(calls)} mechanism invocations where parameters, shape "
+                          f"and occupancy pattern call for {exp if exp >= 0 else 'a different number of iterations'}",
+                          dict(data, dataset=which + 1, got=len(calls), expected=exp))
+            return "violation"
     if is_model and entry in ("kmeans", "forest", "tree"):
         # a data-dependent NUMBER of iterations / trees is not an occupancy difference: compare the common prefix
         k_ = min(len(occ1), len(occ2))
@@ -371,7 +510,6 @@ def check_pair(ctx, case):
     if is_model and entry in ("gnb", "kmeans", "forest", "tree") and occ1 != occ2:
         ctx.count("skipped_occupancy_" + entry)
         return "skipped"
-    data = {"entry": entry, "case": case}
     cfg1 = [(c.cls,) + c08.Rec(c).config()[1:] for c in calls1]
     cfg2 = [(c.cls,) + c08.Rec(c).config()[1:] for c in calls2]
     status = "ok"
@@ -416,6 +554,9 @@ def check(ctx):
             check_pair(ctx, case)
             if j == 0:
                 ctx.sample({"entry": tool, "params": case["params"], "shape": case["shape"]})
+    for case in pca_dispatch_cases(ctx.fork("pca-dispatch"), ctx):
+        check_pair(ctx, case)
+        ctx.count("pca_dispatch_pairs")
     for model in MODELS:
         for j in range(n_model):
             case = gen_model_case(r, ctx, model)
